@@ -1136,12 +1136,19 @@ theorem load_namesNodup {src : Src} {n : Nat} {pfx : String} {a : Nat} {st : St}
 /-! ### names declared by the emitted statements -/
 
 /-- names declared in the sequence name space (`sequence` and `sup-sequence` statements), in order -/
-def seqDeclNames (l : List Pil.Stmt) : List String :=
-  l.filterMap (fun st => match st with | .seq n _ => some n | .sup n _ => some n | _ => none)
-def strandDeclNames (l : List Pil.Stmt) : List String :=
-  l.filterMap (fun st => match st with | .strand n _ _ => some n | _ => none)
-def structDeclNames (l : List Pil.Stmt) : List String :=
-  l.filterMap (fun st => match st with | .struct n _ _ _ => some n | _ => none)
+def seqNameOf : Pil.Stmt → Option String
+  | .seq n _ => some n
+  | .sup n _ => some n
+  | _ => none
+def strandNameOf : Pil.Stmt → Option String
+  | .strand n _ _ => some n
+  | _ => none
+def structNameOf : Pil.Stmt → Option String
+  | .struct n _ _ _ => some n
+  | _ => none
+def seqDeclNames (l : List Pil.Stmt) : List String := l.filterMap seqNameOf
+def strandDeclNames (l : List Pil.Stmt) : List String := l.filterMap strandNameOf
+def structDeclNames (l : List Pil.Stmt) : List String := l.filterMap structNameOf
 
 theorem eq_of_nodup_map {α β} {f : α → β} : ∀ {l : List α}, (l.map f).Nodup →
     ∀ {x y : α}, x ∈ l → y ∈ l → f x = f y → x = y
@@ -1179,16 +1186,16 @@ theorem seqDeclNames_compStmts (s : St) :
     seqDeclNames (Emit.compStmts s) =
       (s.seqs.filter (fun e => e.len != 0 && !e.isSup) ++ s.seqs.filter (fun e => e.len != 0 && e.isSup)).map
         (fun e => s.pfx ++ e.name) := by
-  simp [seqDeclNames, Emit.compStmts, List.filterMap_append, List.filterMap_map, Function.comp_def,
+  simp [seqDeclNames, seqNameOf, Emit.compStmts, List.filterMap_append, List.filterMap_map, Function.comp_def,
     St.baseSeqs, St.supSeqs, List.filter_filter]
 
 theorem strandDeclNames_compStmts (s : St) :
     strandDeclNames (Emit.compStmts s) = s.strands.map (fun e => s.pfx ++ e.name) := by
-  simp [strandDeclNames, Emit.compStmts, List.filterMap_append, List.filterMap_map, Function.comp_def, filterMap_none']
+  simp [strandDeclNames, strandNameOf, Emit.compStmts, List.filterMap_append, List.filterMap_map, Function.comp_def, filterMap_none']
 
 theorem structDeclNames_compStmts (s : St) :
     structDeclNames (Emit.compStmts s) = s.structs.map (fun e => s.pfx ++ e.name) := by
-  simp [structDeclNames, Emit.compStmts, List.filterMap_append, List.filterMap_map, Function.comp_def, filterMap_none']
+  simp [structDeclNames, structNameOf, Emit.compStmts, List.filterMap_append, List.filterMap_map, Function.comp_def, filterMap_none']
 
 theorem nodup_prefixed {α} (p : String) (f : α → String) {l : List α} (h : (l.map f).Nodup) :
     (l.map (fun e => p ++ f e)).Nodup := by
@@ -1287,5 +1294,680 @@ theorem prefix_disjoint (pfx c1 c2 x y : String) (h1 : '-' ∉ c1.toList) (h2 : 
   rw [hd, List.append_assoc, List.append_assoc] at hl
   have := append_sep_inj '-' h1 h2 hl
   exact ⟨String.toList_inj.1 this.1, String.toList_inj.1 this.2⟩
+
+/-! ### systems: the whole instance tree under a renumbering -/
+section systems
+open Pepper.Sys
+
+def rnPort (ρ : String → String) : Sys.Port → Sys.Port
+  | .seq i bs => .seq (rnI ρ i) (bs.map (rnB ρ))
+  | .sig n => .sig n
+
+def rnSig (ρ : String → String) (e : SigEntry) : SigEntry := { e with port := rnPort ρ e.port }
+
+def rnSigs (ρ : String → String) (sg : List (String × List SigEntry)) : List (String × List SigEntry) :=
+  sg.map (fun x => (x.1, x.2.map (rnSig ρ)))
+
+mutual
+/-- rename the local sequence names everywhere in an instance tree -/
+def renameInst (ρ : String → String) : Inst → Inst
+  | .comp st => .comp (rename ρ st)
+  | .sys st => .sys (renameSys ρ st)
+def renameSys (ρ : String → String) : SysSt → SysSt
+  | .mk p n pf t sg l c i o => .mk p n pf t (rnSigs ρ sg) l (renameComps ρ c) i o
+def renameComps (ρ : String → String) : List (String × Inst) → List (String × Inst)
+  | [] => []
+  | (n, i) :: r => (n, renameInst ρ i) :: renameComps ρ r
+end
+
+theorem renameComps_append (ρ : String → String) (a b : List (String × Inst)) :
+    renameComps ρ (a ++ b) = renameComps ρ a ++ renameComps ρ b := by
+  induction a with
+  | nil => rfl
+  | cons h t ih =>
+    obtain ⟨n, i⟩ := h
+    simp [renameComps, ih]
+
+theorem lookup_renameComps (ρ : String → String) (c : List (String × Inst)) (n : String) :
+    (renameComps ρ c).lookup n = (c.lookup n).map (renameInst ρ) := by
+  induction c with
+  | nil => rfl
+  | cons h t ih =>
+    obtain ⟨m, i⟩ := h
+    simp only [renameComps, List.lookup]
+    cases n == m
+    · exact ih
+    · rfl
+
+theorem lookup_rnSigs (ρ : String → String) (sg : List (String × List SigEntry)) (n : String) :
+    (rnSigs ρ sg).lookup n = (sg.lookup n).map (List.map (rnSig ρ)) := by
+  induction sg with
+  | nil => rfl
+  | cons h t ih =>
+    obtain ⟨m, es⟩ := h
+    simp only [rnSigs, List.map_cons, List.lookup]
+    cases n == m
+    · exact ih
+    · rfl
+
+theorem addSig_rn (ρ : String → String) (sg : List (String × List SigEntry)) (n : String) (e : SigEntry) :
+    addSig (rnSigs ρ sg) n (rnSig ρ e) = rnSigs ρ (addSig sg n e) := by
+  unfold addSig
+  rw [lookup_rnSigs, Option.isSome_map]
+  split
+  · simp only [rnSigs, List.map_map]
+    apply List.map_congr_left
+    intro x _
+    simp only [Function.comp]
+    split <;> simp
+  · simp [rnSigs]
+
+/-- loop body of the binding loop of `add_component` (same text as in the model, named) -/
+def bindStep (cname : String) (acc : List (String × List SigEntry) × List (String × Nat))
+    (gp : SigRef × (Sys.Port × Bool × Nat × Bool)) : Except Sys.Err (List (String × List SigEntry) × List (String × Nat)) :=
+  match acc.2.lookup gp.1.name with
+  | none => if gp.2.2.2.2 then .error .dummySignal
+            else .ok (addSig acc.1 gp.1.name ⟨gp.2.1, cname, gp.1.star != gp.2.2.1⟩, acc.2 ++ [(gp.1.name, gp.2.2.2.1)])
+  | some l0 => if l0 != gp.2.2.2.1 then .error .signalLength
+               else .ok (addSig acc.1 gp.1.name ⟨gp.2.1, cname, gp.1.star != gp.2.2.1⟩, acc.2)
+
+def bindSigs (cname : String) (sigs : List (String × List SigEntry)) (lens : List (String × Nat))
+    (globs : List SigRef) (ports : List (Sys.Port × Bool × Nat × Bool)) :
+    Except Sys.Err (List (String × List SigEntry) × List (String × Nat)) :=
+  (List.zip globs ports).foldlM (bindStep cname) (sigs, lens)
+
+def compPorts (cst : Comp.St) : List (Sys.Port × Bool × Nat × Bool) :=
+  (cst.inputSeqs ++ cst.outputSeqs).map (fun (i : ItemRef) =>
+    let fwdRef : ItemRef := { i with rev := false }
+    let bases := match cst.findSeq i.name with | some e => e.bases | none => []
+    (Sys.Port.seq fwdRef bases, i.rev, i.len, i.len == 0))
+
+def sysPorts (sst : SysSt) : List (Sys.Port × Bool × Nat × Bool) :=
+  (sst.inputSeqs ++ sst.outputSeqs).map (fun (r : SigRef) =>
+    (Sys.Port.sig r.name, r.star, (sst.lengths.lookup r.name).getD 0, false))
+
+def instPorts : Inst → List (Sys.Port × Bool × Nat × Bool)
+  | .comp cst => compPorts cst
+  | .sys sst => sysPorts sst
+
+def instArity : Inst → Nat × Nat
+  | .comp cst => (cst.inputSeqs.length, cst.outputSeqs.length)
+  | .sys sst => (sst.inputSeqs.length, sst.outputSeqs.length)
+
+def addComp (st : SysSt) (sg : List (String × List SigEntry)) (l : List (String × Nat)) (cname : String) (inst : Inst) : SysSt :=
+  match st with
+  | .mk p n pf t _ _ c i o => .mk p n pf t sg l (c ++ [(cname, inst)]) i o
+
+def setTemplate (st : SysSt) (t : List (String × String)) : SysSt :=
+  match st with
+  | .mk p n pf _ sg l c i o => .mk p n pf t sg l c i o
+
+theorem loadStmts_component_eq (b : Bundle) (fuel : Nat) (includes : List String) (cname templ : String) (args : Nat)
+    (ins outs : List SigRef) (r : List SStmt) (st : SysSt) (a : Nat) :
+    loadStmts b fuel includes (.component cname templ args ins outs :: r) st a =
+      match st.template.lookup templ with
+      | none => .error .unknownTemplate
+      | some tpath =>
+        if (st.components.lookup cname).isSome then .error .dupComponent else
+        match loadFile b fuel tpath args ("@" ++ st.pfx ++ cname) (st.pfx ++ cname ++ "-") st.path includes a with
+        | .error e => .error e
+        | .ok (inst, a') =>
+          if ins.length != (instArity inst).1 || outs.length != (instArity inst).2 then .error .portCount else
+          match bindSigs cname st.signals st.lengths (ins ++ outs) (instPorts inst) with
+          | .error e => .error e
+          | .ok (sg, l) => loadStmts b fuel includes r (addComp st sg l cname inst) a' := by
+  rw [loadStmts]
+  obtain ⟨p, n, pf, t, sg0, l0, c0, i0, o0⟩ := st
+  cases (SysSt.mk p n pf t sg0 l0 c0 i0 o0).template.lookup templ with
+  | none => rfl
+  | some tpath =>
+    simp only
+    split
+    · rfl
+    · cases loadFile b fuel tpath args ("@" ++ (SysSt.mk p n pf t sg0 l0 c0 i0 o0).pfx ++ cname) ((SysSt.mk p n pf t sg0 l0 c0 i0 o0).pfx ++ cname ++ "-") (SysSt.mk p n pf t sg0 l0 c0 i0 o0).path includes a with
+      | error e => rfl
+      | ok x =>
+        obtain ⟨inst, a'⟩ := x
+        cases inst <;> rfl
+
+theorem loadStmts_imports_eq (b : Bundle) (fuel : Nat) (includes : List String) (items : List (String × Option String))
+    (r : List SStmt) (st : SysSt) (a : Nat) :
+    loadStmts b fuel includes (.imports items :: r) st a =
+      match loadStmts.addImports items st.template with
+      | .error e => .error e
+      | .ok t => loadStmts b fuel includes r (setTemplate st t) a := by
+  rw [loadStmts]
+  obtain ⟨p, n, pf, t, sg0, l0, c0, i0, o0⟩ := st
+  cases loadStmts.addImports items (SysSt.mk p n pf t sg0 l0 c0 i0 o0).template <;> rfl
+
+@[simp] theorem renameSys_template (ρ : String → String) (st : SysSt) : (renameSys ρ st).template = st.template := by
+  cases st; rfl
+@[simp] theorem renameSys_pfx (ρ : String → String) (st : SysSt) : (renameSys ρ st).pfx = st.pfx := by
+  cases st; rfl
+@[simp] theorem renameSys_path (ρ : String → String) (st : SysSt) : (renameSys ρ st).path = st.path := by
+  cases st; rfl
+@[simp] theorem renameSys_lengths (ρ : String → String) (st : SysSt) : (renameSys ρ st).lengths = st.lengths := by
+  cases st; rfl
+@[simp] theorem renameSys_signals (ρ : String → String) (st : SysSt) :
+    (renameSys ρ st).signals = rnSigs ρ st.signals := by
+  cases st; rfl
+@[simp] theorem renameSys_components (ρ : String → String) (st : SysSt) :
+    (renameSys ρ st).components = renameComps ρ st.components := by
+  cases st; rfl
+@[simp] theorem renameSys_inputSeqs (ρ : String → String) (st : SysSt) : (renameSys ρ st).inputSeqs = st.inputSeqs := by
+  cases st; rfl
+@[simp] theorem renameSys_outputSeqs (ρ : String → String) (st : SysSt) : (renameSys ρ st).outputSeqs = st.outputSeqs := by
+  cases st; rfl
+
+theorem setTemplate_rn (ρ : String → String) (st : SysSt) (t : List (String × String)) :
+    setTemplate (renameSys ρ st) t = renameSys ρ (setTemplate st t) := by
+  cases st; rfl
+
+theorem addComp_rn (ρ : String → String) (st : SysSt) (sg : List (String × List SigEntry)) (l : List (String × Nat))
+    (cname : String) (inst : Inst) :
+    addComp (renameSys ρ st) (rnSigs ρ sg) l cname (renameInst ρ inst) = renameSys ρ (addComp st sg l cname inst) := by
+  cases st
+  simp [addComp, renameSys, renameComps_append, renameComps]
+
+def rnP4 (ρ : String → String) (x : Sys.Port × Bool × Nat × Bool) : Sys.Port × Bool × Nat × Bool := (rnPort ρ x.1, x.2)
+
+theorem instPorts_rn {ρ : String → String} (h : Inj ρ) (inst : Inst) :
+    instPorts (renameInst ρ inst) = (instPorts inst).map (rnP4 ρ) := by
+  cases inst with
+  | comp cst =>
+    simp only [renameInst, instPorts, compPorts]
+    have : (rename ρ cst).inputSeqs ++ (rename ρ cst).outputSeqs = (cst.inputSeqs ++ cst.outputSeqs).map (rnI ρ) := by
+      simp [rename]
+    rw [this, List.map_map, List.map_map]
+    apply List.map_congr_left
+    intro i _
+    simp only [Function.comp, rnI_name, findSeq_rename h, rnP4, rnPort]
+    cases cst.findSeq i.name <;> simp [rnI, rnE]
+  | sys sst =>
+    simp only [renameInst, instPorts, sysPorts, renameSys_inputSeqs, renameSys_outputSeqs, renameSys_lengths,
+      List.map_map]
+    apply List.map_congr_left
+    intro r _
+    rfl
+
+theorem instArity_rn (ρ : String → String) (inst : Inst) : instArity (renameInst ρ inst) = instArity inst := by
+  cases inst with
+  | comp cst => simp [renameInst, instArity, rename]
+  | sys sst => simp [renameInst, instArity]
+
+theorem bindStep_rn (ρ : String → String) (cname : String) (acc : List (String × List SigEntry) × List (String × Nat))
+    (gp : SigRef × (Sys.Port × Bool × Nat × Bool)) :
+    bindStep cname (rnSigs ρ acc.1, acc.2) (gp.1, rnP4 ρ gp.2) =
+      (bindStep cname acc gp).map (fun r => (rnSigs ρ r.1, r.2)) := by
+  unfold bindStep
+  simp only [rnP4]
+  cases acc.2.lookup gp.1.name with
+  | none =>
+    dsimp only
+    by_cases hc : gp.2.2.2.2 = true
+    · simp only [hc, if_true]; rfl
+    · simp only [hc, Bool.false_eq_true, if_false, Except.map]
+      rw [← addSig_rn]
+      rfl
+  | some l0 =>
+    dsimp only
+    by_cases hc : (l0 != gp.2.2.2.1) = true
+    · simp only [hc, if_true]; rfl
+    · simp only [hc, Bool.false_eq_true, if_false, Except.map]
+      rw [← addSig_rn]
+      rfl
+
+theorem bindFold_rn (ρ : String → String) (cname : String) :
+    ∀ (zs : List (SigRef × (Sys.Port × Bool × Nat × Bool))) (acc : List (String × List SigEntry) × List (String × Nat)),
+      (zs.map (fun gp => (gp.1, rnP4 ρ gp.2))).foldlM (bindStep cname) (rnSigs ρ acc.1, acc.2) =
+        (zs.foldlM (bindStep cname) acc).map (fun r => (rnSigs ρ r.1, r.2))
+  | [], acc => rfl
+  | z :: r, acc => by
+    simp only [List.map_cons, List.foldlM_cons, bindStep_rn]
+    cases bindStep cname acc z with
+    | error e => rfl
+    | ok acc1 => exact bindFold_rn ρ cname r acc1
+
+theorem bindSigs_rn (ρ : String → String) (cname : String) (sg : List (String × List SigEntry)) (l : List (String × Nat))
+    (globs : List SigRef) (ports : List (Sys.Port × Bool × Nat × Bool)) :
+    bindSigs cname (rnSigs ρ sg) l globs (ports.map (rnP4 ρ)) =
+      (bindSigs cname sg l globs ports).map (fun r => (rnSigs ρ r.1, r.2)) := by
+  unfold bindSigs
+  have : List.zip globs (ports.map (rnP4 ρ)) = (List.zip globs ports).map (fun gp => (gp.1, rnP4 ρ gp.2)) := by
+    induction globs generalizing ports with
+    | nil => rfl
+    | cons g gs ih =>
+      cases ports with
+      | nil => rfl
+      | cons p ps => simp [List.zip_cons_cons, ih]
+  rw [this]
+  exact bindFold_rn ρ cname _ (sg, l)
+
+theorem addStmts_anon_le {s' : St} {a' : Nat} : ∀ (stmts : List Stmt) (s : St) (a : Nat),
+    addStmts s a stmts = .ok (s', a') → a ≤ a'
+  | [], s, a, h => by
+    simp only [addStmts, Except.ok.injEq, Prod.mk.injEq] at h
+    omega
+  | st :: r, s, a, h => by
+    simp only [addStmts] at h
+    cases h1 : addStmt s a st with
+    | error e => simp [h1] at h
+    | ok res =>
+      obtain ⟨s1, a1⟩ := res
+      simp only [h1] at h
+      exact Nat.le_trans (addStmt_anon_le h1) (addStmts_anon_le r s1 a1 h)
+
+theorem load_anon_le {src : Src} {n : Nat} {pfx : String} {a : Nat} {st : St} {a' : Nat}
+    (h : load src n pfx a = .ok (st, a')) : a ≤ a' := by
+  unfold load at h
+  by_cases hn : (src.params.length != n) = true
+  · simp [hn, throw, throwThe, MonadExceptOf.throw, bind, Except.bind] at h
+  · simp only [hn, Bool.false_eq_true, if_false, bind, Except.bind, pure, Except.pure] at h
+    cases hs : addStmts { name := src.name, pfx := pfx, params := src.params } a src.stmts with
+    | error e => simp [hs] at h
+    | ok res =>
+      obtain ⟨s1, a1⟩ := res
+      simp only [hs] at h
+      cases hio : addIO s1 src.inputs src.outputs with
+      | error e => simp [hio] at h
+      | ok s2 =>
+        simp only [hio, Except.ok.injEq, Prod.mk.injEq] at h
+        obtain ⟨_, rfl⟩ := h
+        exact addStmts_anon_le src.stmts _ a hs
+
+def rnIR (ρ : String → String) (k : Nat) (r : Inst × Nat) : Inst × Nat := (renameInst ρ r.1, r.2 + k)
+def rnSR (ρ : String → String) (k : Nat) (r : SysSt × Nat) : SysSt × Nat := (renameSys ρ r.1, r.2 + k)
+
+/-- `ρ` fixes the sequence names every component source of the bundle mentions -/
+def BundleFixed (ρ : String → String) (b : Bundle) : Prop :=
+  ∀ key c, b.files.lookup key = some (.comp c) → ∀ x ∈ srcSeqNames c, ρ x = x
+
+local macro "err_case" : tactic =>
+  `(tactic| (constructor <;> first | rfl | trivial | (intro r hr; cases hr; done) | (intro r hr; simp at hr; done)))
+
+theorem loadStmts_rename_of {ρ : String → String} (hinj : Inj ρ) {a0 k : Nat} (b : Bundle) (fuel : Nat)
+    (includes : List String)
+    (hLF : ∀ base args key pfx path a, a0 ≤ a →
+      loadFile b fuel base args key pfx path includes (a + k) =
+        (loadFile b fuel base args key pfx path includes a).map (rnIR ρ k) ∧
+      ∀ r, loadFile b fuel base args key pfx path includes a = .ok r → a ≤ r.2) :
+    ∀ (stmts : List SStmt) (st : SysSt) (a : Nat), a0 ≤ a →
+      loadStmts b fuel includes stmts (renameSys ρ st) (a + k) =
+        (loadStmts b fuel includes stmts st a).map (rnSR ρ k) ∧
+      ∀ r, loadStmts b fuel includes stmts st a = .ok r → a ≤ r.2
+  | [], st, a, _ => by
+    rw [loadStmts, loadStmts]
+    refine ⟨rfl, ?_⟩
+    intro r hr
+    injection hr with hr
+    subst hr
+    exact Nat.le_refl _
+  | .imports items :: r, st, a, ha => by
+    rw [loadStmts_imports_eq, loadStmts_imports_eq, renameSys_template]
+    cases loadStmts.addImports items st.template with
+    | error e => err_case
+    | ok t =>
+      dsimp only
+      rw [setTemplate_rn]
+      exact loadStmts_rename_of hinj b fuel includes hLF r (setTemplate st t) a ha
+  | .component cname templ args ins outs :: r, st, a, ha => by
+    rw [loadStmts_component_eq, loadStmts_component_eq]
+    simp only [renameSys_template, renameSys_components, renameSys_pfx, renameSys_path, renameSys_signals,
+      renameSys_lengths, lookup_renameComps, Option.isSome_map]
+    cases st.template.lookup templ with
+    | none => err_case
+    | some tpath =>
+      dsimp only
+      by_cases hd : (st.components.lookup cname).isSome = true
+      · simp only [hd, if_true]
+        err_case
+      · simp only [hd, Bool.false_eq_true, if_false]
+        obtain ⟨hl1, hl2⟩ := hLF tpath args ("@" ++ st.pfx ++ cname) (st.pfx ++ cname ++ "-") st.path a ha
+        rw [hl1]
+        cases hlf : loadFile b fuel tpath args ("@" ++ st.pfx ++ cname) (st.pfx ++ cname ++ "-") st.path includes a with
+        | error e => err_case
+        | ok x =>
+          obtain ⟨inst, a'⟩ := x
+          have hle : a ≤ a' := hl2 _ hlf
+          simp only [Except.map, rnIR, instArity_rn, instPorts_rn hinj]
+          by_cases hc : (ins.length != (instArity inst).1 || outs.length != (instArity inst).2) = true
+          · simp only [hc, if_true]
+            err_case
+          · simp only [hc, Bool.false_eq_true, if_false]
+            rw [bindSigs_rn]
+            cases bindSigs cname st.signals st.lengths (ins ++ outs) (instPorts inst) with
+            | error e => err_case
+            | ok sl =>
+              obtain ⟨sg, l⟩ := sl
+              simp only [Except.map]
+              rw [addComp_rn]
+              obtain ⟨h1, h2⟩ := loadStmts_rename_of hinj b fuel includes hLF r (addComp st sg l cname inst) a'
+                (Nat.le_trans ha hle)
+              exact ⟨h1, fun r hr => Nat.le_trans hle (h2 r hr)⟩
+
+theorem loadFile_rename {ρ : String → String} (hinj : Inj ρ) {a0 k : Nat} (hr : Renum ρ a0 k) (b : Bundle)
+    (hb : BundleFixed ρ b) :
+    ∀ (fuel : Nat) (includes : List String) (base : String) (args : Nat) (key pfx path : String) (a : Nat), a0 ≤ a →
+      loadFile b fuel base args key pfx path includes (a + k) =
+        (loadFile b fuel base args key pfx path includes a).map (rnIR ρ k) ∧
+      ∀ r, loadFile b fuel base args key pfx path includes a = .ok r → a ≤ r.2
+  | 0, includes, base, args, key, pfx, path, a, _ => by
+    rw [loadFile, loadFile]
+    err_case
+  | fuel + 1, includes, base, args, key, pfx, path, a, ha => by
+    have ih := loadStmts_rename_of hinj b fuel includes
+      (fun base args key pfx path a ha => loadFile_rename hinj hr b hb fuel includes base args key pfx path a ha)
+    rw [loadFile, loadFile]
+    cases resolveImport (fun p => b.exists_.contains (normPath p)) base path includes with
+    | error e => err_case
+    | ok res =>
+      obtain ⟨fname, issys, newPath⟩ := res
+      dsimp only
+      cases hlk : b.files.lookup (normPath fname ++ key) with
+      | none => err_case
+      | some fs =>
+        cases fs with
+        | comp c =>
+          dsimp only
+          cases issys with
+          | true => err_case
+          | false =>
+            simp only [Bool.false_eq_true, if_false]
+            rw [load_rename hinj (fun n hn => hr n (Nat.le_trans ha hn)) c args pfx (hb _ c hlk)]
+            cases hld : Comp.load c args pfx a with
+            | error e => err_case
+            | ok x =>
+              obtain ⟨st, a'⟩ := x
+              refine ⟨rfl, ?_⟩
+              intro r hr
+              injection hr with hr
+              subst hr
+              exact load_anon_le hld
+        | sys s =>
+          dsimp only
+          cases issys with
+          | false => err_case
+          | true =>
+            simp only [Bool.not_true, Bool.false_eq_true, if_false]
+            by_cases hp : (s.params.length != args) = true
+            · simp only [hp, if_true]
+              err_case
+            · simp only [hp, Bool.false_eq_true, if_false]
+              have h0 : (SysSt.mk newPath s.name pfx [] [] [] [] [] []) =
+                  renameSys ρ (SysSt.mk newPath s.name pfx [] [] [] [] [] []) := rfl
+              obtain ⟨h1, h2⟩ := ih s.stmts (SysSt.mk newPath s.name pfx [] [] [] [] [] []) a ha
+              rw [← h0] at h1
+              rw [h1]
+              cases hls : loadStmts b fuel includes s.stmts (SysSt.mk newPath s.name pfx [] [] [] [] [] []) a with
+              | error e => err_case
+              | ok x =>
+                obtain ⟨st, a'⟩ := x
+                have hle := h2 _ hls
+                simp only [Except.map, rnSR, renameSys_signals, lookup_rnSigs, Option.isSome_map]
+                split
+                · err_case
+                · cases st
+                  refine ⟨rfl, ?_⟩
+                  intro r hr
+                  injection hr with hr
+                  subst hr
+                  exact hle
+
+/-- the `equal` / signal statements of a system with the local sequence names written through `ρ` -/
+def sigStmtsWith (ρ : String → String) (pfx : String) (signals : List (String × List SigEntry))
+    (lengths : List (String × Nat)) : List Pil.Stmt :=
+  signals.flatMap (fun (sg, entries) =>
+    let len := (lengths.lookup sg).getD 0
+    [Pil.Stmt.seq (pfx ++ sg) (List.replicate len 'N'),
+     Pil.Stmt.equal ((pfx ++ sg) :: entries.map (fun e =>
+        (match e.port with
+         | .seq i _ => pfx ++ e.comp ++ "-" ++ ρ i.name
+         | .sig n => pfx ++ e.comp ++ "-" ++ n) ++ (if e.wc then "*" else "")))])
+
+mutual
+/-- `Emit.instStmts` with every local sequence name `x` written `ρ x` -/
+def instStmtsWith (ρ : String → String) : Inst → List Pil.Stmt
+  | .comp st => compStmtsWith ρ st
+  | .sys st => sysStmtsWith ρ st
+def sysStmtsWith (ρ : String → String) : SysSt → List Pil.Stmt
+  | .mk _ _ pfx _ signals lengths components _ _ =>
+    compsStmtsWith ρ components ++ sigStmtsWith ρ pfx signals lengths
+def compsStmtsWith (ρ : String → String) : List (String × Inst) → List Pil.Stmt
+  | [] => []
+  | (_, i) :: r => instStmtsWith ρ i ++ compsStmtsWith ρ r
+end
+
+theorem sigStmts_rn (ρ : String → String) (pfx : String) (signals : List (String × List SigEntry))
+    (lengths : List (String × Nat)) :
+    sigStmtsWith id pfx (rnSigs ρ signals) lengths = sigStmtsWith ρ pfx signals lengths := by
+  unfold sigStmtsWith rnSigs
+  rw [List.flatMap_map]
+  congr 1
+  funext x
+  obtain ⟨sg, entries⟩ := x
+  simp only [List.map_map]
+  congr 4
+  apply List.map_congr_left
+  intro e _
+  simp only [Function.comp, rnSig, rnPort]
+  cases e.port <;> rfl
+
+mutual
+theorem instStmts_rename (ρ : String → String) : ∀ inst : Inst, Emit.instStmts (renameInst ρ inst) = instStmtsWith ρ inst
+  | .comp st => by simp only [renameInst, Emit.instStmts, instStmtsWith, compStmts_rename]
+  | .sys st => by
+    simp only [renameInst, Emit.instStmts, instStmtsWith]
+    exact sysStmts_rename ρ st
+theorem sysStmts_rename (ρ : String → String) : ∀ st : SysSt, Emit.sysStmts (renameSys ρ st) = sysStmtsWith ρ st
+  | .mk p n pfx t signals lengths components i o => by
+    simp only [renameSys, Emit.sysStmts, sysStmtsWith, compsStmts_rename ρ components]
+    congr 1
+    exact sigStmts_rn ρ pfx signals lengths
+theorem compsStmts_rename (ρ : String → String) : ∀ c : List (String × Inst),
+    Emit.compsStmts (renameComps ρ c) = compsStmtsWith ρ c
+  | [] => rfl
+  | (n, i) :: r => by
+    simp only [renameComps, Emit.compsStmts, compsStmtsWith, instStmts_rename ρ i, compsStmts_rename ρ r]
+end
+
+mutual
+theorem instStmtsWith_id : ∀ inst : Inst, instStmtsWith id inst = Emit.instStmts inst
+  | .comp st => by simp only [instStmtsWith, Emit.instStmts, compStmtsWith_id]
+  | .sys st => by
+    simp only [instStmtsWith, Emit.instStmts]
+    exact sysStmtsWith_id st
+theorem sysStmtsWith_id : ∀ st : SysSt, sysStmtsWith id st = Emit.sysStmts st
+  | .mk p n pfx t signals lengths components i o => by
+    simp only [sysStmtsWith, Emit.sysStmts, compsStmtsWith_id components]
+    rfl
+theorem compsStmtsWith_id : ∀ c : List (String × Inst), compsStmtsWith id c = Emit.compsStmts c
+  | [] => rfl
+  | (n, i) :: r => by
+    simp only [compsStmtsWith, Emit.compsStmts, instStmtsWith_id i, compsStmtsWith_id r]
+end
+
+/-! ### uniqueness of names over a whole instance tree -/
+
+def instPfx : Inst → String
+  | .comp st => st.pfx
+  | .sys st => st.pfx
+
+def dashFree (s : String) : Prop := '-' ∉ s.toList
+
+mutual
+/-- well-formedness of an instance tree as far as names go: each component has duplicate-free tables; at each
+    system level the instance names are distinct and contain no `-`, the signal names are distinct and contain
+    no `-`, and every instance carries the prefix `pfx ++ <instance name> ++ "-"` -/
+def TreeOk : Inst → Prop
+  | .comp st => NamesNodup st
+  | .sys st => SysOk st
+def SysOk : SysSt → Prop
+  | .mk _ _ pfx _ signals _ components _ _ =>
+    (components.map (·.1)).Nodup ∧ (∀ c ∈ components.map (·.1), dashFree c) ∧
+    (signals.map (·.1)).Nodup ∧ (∀ g ∈ signals.map (·.1), dashFree g) ∧ CompsOk pfx components
+def CompsOk (pfx : String) : List (String × Inst) → Prop
+  | [] => True
+  | (c, i) :: r => instPfx i = pfx ++ c ++ "-" ∧ TreeOk i ∧ CompsOk pfx r
+end
+
+theorem sysStmts_eq (p n pfx : String) (t : List (String × String)) (signals : List (String × List SigEntry))
+    (lengths : List (String × Nat)) (components : List (String × Inst)) (i o : List SigRef) :
+    Emit.sysStmts (.mk p n pfx t signals lengths components i o) =
+      Emit.compsStmts components ++ sigStmtsWith id pfx signals lengths := by
+  simp only [Emit.sysStmts]
+  rfl
+
+/-- names with a common prefix -/
+def HasPfx (p : String) (n : String) : Prop := ∃ rest, n = p ++ rest
+
+mutual
+theorem treeNodup_inst (f : Pil.Stmt → Option String)
+    (hcomp : ∀ st, NamesNodup st → (List.filterMap f (Emit.compStmts st)).Nodup ∧
+      ∀ n ∈ List.filterMap f (Emit.compStmts st), HasPfx st.pfx n)
+    (hsig : ∀ pfx signals lengths,
+      (List.filterMap f (sigStmtsWith id pfx signals lengths)).Sublist (signals.map (fun x => pfx ++ x.1))) :
+    ∀ inst, TreeOk inst → (List.filterMap f (Emit.instStmts inst)).Nodup ∧
+      ∀ n ∈ List.filterMap f (Emit.instStmts inst), HasPfx (instPfx inst) n
+  | .comp st, h => by
+    simp only [Emit.instStmts, instPfx]
+    exact hcomp st h
+  | .sys (.mk p nm pfx t signals lengths components i o), h => by
+    simp only [TreeOk, SysOk] at h
+    obtain ⟨hc1, hc2, hs1, hs2, hok⟩ := h
+    obtain ⟨hn, hp⟩ := treeNodup_comps f hcomp hsig pfx components hok hc1 hc2
+    simp only [Emit.instStmts, instPfx, SysSt.pfx, sysStmts_eq, List.filterMap_append]
+    have hsub := hsig pfx signals lengths
+    have hsn : (signals.map (fun x => pfx ++ x.1)).Nodup :=
+      nodup_prefixed pfx (fun (x : String × List SigEntry) => x.1) hs1
+    refine ⟨?_, ?_⟩
+    · rw [List.nodup_append]
+      refine ⟨hn, List.Sublist.nodup hsub hsn, ?_⟩
+      intro a ha b hb hab
+      obtain ⟨c, hc, rest, hrest⟩ := hp a ha
+      have hb' := List.Sublist.subset hsub hb
+      obtain ⟨x, hx, hxe⟩ := List.mem_map.1 hb'
+      have hd := hs2 x.1 (List.mem_map_of_mem hx)
+      rw [hab, ← hxe] at hrest
+      have h2 : x.1 = c ++ "-" ++ rest := by
+        have : pfx ++ x.1 = pfx ++ (c ++ "-" ++ rest) := by
+          rw [hrest]; simp [String.append_assoc]
+        exact (String.append_right_inj pfx).1 this
+      apply hd
+      rw [h2]
+      simp [String.toList_append]
+    · intro a ha
+      rcases List.mem_append.1 ha with ha | ha
+      · obtain ⟨c, _, rest, hrest⟩ := hp a ha
+        exact ⟨c ++ "-" ++ rest, by rw [hrest]; simp [String.append_assoc]⟩
+      · have hb' := List.Sublist.subset hsub ha
+        obtain ⟨x, _, hxe⟩ := List.mem_map.1 hb'
+        exact ⟨x.1, hxe.symm⟩
+theorem treeNodup_comps (f : Pil.Stmt → Option String)
+    (hcomp : ∀ st, NamesNodup st → (List.filterMap f (Emit.compStmts st)).Nodup ∧
+      ∀ n ∈ List.filterMap f (Emit.compStmts st), HasPfx st.pfx n)
+    (hsig : ∀ pfx signals lengths,
+      (List.filterMap f (sigStmtsWith id pfx signals lengths)).Sublist (signals.map (fun x => pfx ++ x.1))) :
+    ∀ pfx comps, CompsOk pfx comps → (comps.map (·.1)).Nodup → (∀ c ∈ comps.map (·.1), dashFree c) →
+      (List.filterMap f (Emit.compsStmts comps)).Nodup ∧
+      ∀ n ∈ List.filterMap f (Emit.compsStmts comps), ∃ c ∈ comps.map (·.1), HasPfx (pfx ++ c ++ "-") n
+  | pfx, [], _, _, _ => by
+    simp [Emit.compsStmts]
+  | pfx, (c, i) :: r, h, hnd, hdf => by
+    simp only [CompsOk] at h
+    obtain ⟨hpf, hti, hr⟩ := h
+    simp only [List.map_cons, List.nodup_cons] at hnd
+    obtain ⟨hni, hnr⟩ := treeNodup_inst f hcomp hsig i hti
+    obtain ⟨hnr2, hpr⟩ := treeNodup_comps f hcomp hsig pfx r hr hnd.2 (fun x hx => hdf x (List.mem_cons_of_mem _ hx))
+    simp only [Emit.compsStmts, List.filterMap_append]
+    refine ⟨?_, ?_⟩
+    · rw [List.nodup_append]
+      refine ⟨hni, hnr2, ?_⟩
+      intro a ha b hb hab
+      obtain ⟨r1, hr1⟩ := hnr a ha
+      obtain ⟨c', hc', r2, hr2⟩ := hpr b hb
+      rw [hpf] at hr1
+      rw [hab, hr2] at hr1
+      have := prefix_disjoint pfx c' c r2 r1 (hdf c' (List.mem_cons_of_mem _ hc')) (hdf c List.mem_cons_self) hr1
+      exact hnd.1 (this.1 ▸ hc')
+    · intro a ha
+      rcases List.mem_append.1 ha with ha | ha
+      · obtain ⟨r1, hr1⟩ := hnr a ha
+        exact ⟨c, List.mem_cons_self, r1, by rw [hr1, hpf]⟩
+      · obtain ⟨c', hc', hh⟩ := hpr a ha
+        exact ⟨c', List.mem_cons_of_mem _ hc', hh⟩
+end
+
+theorem sig_seqNames (pfx : String) (signals : List (String × List SigEntry)) (lengths : List (String × Nat)) :
+    List.filterMap seqNameOf (sigStmtsWith id pfx signals lengths) = signals.map (fun x => pfx ++ x.1) := by
+  unfold sigStmtsWith
+  induction signals with
+  | nil => rfl
+  | cons x r ih =>
+    obtain ⟨sg, entries⟩ := x
+    simp only [List.flatMap_cons, List.filterMap_append, ih, List.map_cons]
+    simp [seqNameOf]
+
+theorem sig_strandNames (pfx : String) (signals : List (String × List SigEntry)) (lengths : List (String × Nat)) :
+    List.filterMap strandNameOf (sigStmtsWith id pfx signals lengths) = [] := by
+  unfold sigStmtsWith
+  induction signals with
+  | nil => rfl
+  | cons x r ih =>
+    obtain ⟨sg, entries⟩ := x
+    simp only [List.flatMap_cons, List.filterMap_append, ih]
+    simp [strandNameOf]
+
+theorem sig_structNames (pfx : String) (signals : List (String × List SigEntry)) (lengths : List (String × Nat)) :
+    List.filterMap structNameOf (sigStmtsWith id pfx signals lengths) = [] := by
+  unfold sigStmtsWith
+  induction signals with
+  | nil => rfl
+  | cons x r ih =>
+    obtain ⟨sg, entries⟩ := x
+    simp only [List.flatMap_cons, List.filterMap_append, ih]
+    simp [structNameOf]
+
+/-- **Uniqueness over the tree.**  In the statements emitted for a well-formed instance tree no name is
+    declared twice: not in the sequence name space (`sequence` / `sup-sequence`, including the signal
+    sequences of systems), not among the strands, not among the structures. -/
+theorem tree_names_nodup (inst : Inst) (h : TreeOk inst) :
+    (seqDeclNames (Emit.instStmts inst)).Nodup ∧ (strandDeclNames (Emit.instStmts inst)).Nodup ∧
+      (structDeclNames (Emit.instStmts inst)).Nodup := by
+  refine ⟨?_, ?_, ?_⟩
+  · refine (treeNodup_inst seqNameOf ?_ ?_ inst h).1
+    · intro st hn
+      refine ⟨(compStmts_names_nodup hn).1, ?_⟩
+      intro n hm
+      have : n ∈ seqDeclNames (Emit.compStmts st) := hm
+      rw [seqDeclNames_compStmts] at this
+      obtain ⟨e, _, rfl⟩ := List.mem_map.1 this
+      exact ⟨e.name, rfl⟩
+    · intro pfx signals lengths
+      rw [sig_seqNames]
+      exact List.Sublist.refl _
+  · refine (treeNodup_inst strandNameOf ?_ ?_ inst h).1
+    · intro st hn
+      refine ⟨(compStmts_names_nodup hn).2.1, ?_⟩
+      intro n hm
+      have : n ∈ strandDeclNames (Emit.compStmts st) := hm
+      rw [strandDeclNames_compStmts] at this
+      obtain ⟨e, _, rfl⟩ := List.mem_map.1 this
+      exact ⟨e.name, rfl⟩
+    · intro pfx signals lengths
+      rw [sig_strandNames]
+      exact List.nil_sublist _
+  · refine (treeNodup_inst structNameOf ?_ ?_ inst h).1
+    · intro st hn
+      refine ⟨(compStmts_names_nodup hn).2.2, ?_⟩
+      intro n hm
+      have : n ∈ structDeclNames (Emit.compStmts st) := hm
+      rw [structDeclNames_compStmts] at this
+      obtain ⟨e, _, rfl⟩ := List.mem_map.1 this
+      exact ⟨e.name, rfl⟩
+    · intro pfx signals lengths
+      rw [sig_structNames]
+      exact List.nil_sublist _
+
+end systems
 
 end Pepper.CompShift
